@@ -368,7 +368,7 @@ class FnTerms:
             return ("free", name)
         base = self._defs_term(name, ids, depth)
         # wrap with mutation facts
-        ms = self.mutations().get(name)
+        ms = self.mutations().get(name) if name not in ("self", "cls") else None
         if ms:
             facts = []
             idset = set(ids)
